@@ -32,6 +32,9 @@ type evY struct{ n int }
 type ping struct{ n int }
 type spawnKids struct{ n, depth int }
 type spawnNamed struct{ name string }
+type hold struct{} // an Ask that is never answered: its sender (the future) stays registered until the timeout
+
+var lastHeld atomic.Value // string: the sender reference a worker saw for a pending Ask
 type boom struct{}
 type selfKill struct{ poison bool }
 
@@ -61,6 +64,10 @@ func (w *worker) OnReceive(ctx vivid.ActorContext) {
 			if _, err := ctx.ActorOf(&worker{depth: w.depth + 1, stats: w.stats}); err == nil {
 				w.stats.spawned.Add(1)
 			}
+		}
+	case *hold:
+		if sd := ctx.Sender(); sd != nil {
+			lastHeld.Store(sd.String())
 		}
 	case *spawnNamed:
 		// "create the named child unless it is there already"
@@ -120,7 +127,7 @@ func TestC10Stress(t *testing.T) {
 		}
 		var bad atomic.Value
 		fail := func(sig, format string, a ...any) { bad.CompareAndSwap(nil, [2]string{sig, fmt.Sprintf(format, a...)}) }
-		var overlap, named, collisions atomic.Int64
+		var overlap, named, collisions, lookups atomic.Int64
 		var wg sync.WaitGroup
 		for g := 0; g < nGo; g++ {
 			wg.Add(1)
@@ -129,7 +136,7 @@ func TestC10Stress(t *testing.T) {
 				y := x ^ (uint64(g)+1)*0xbf58476d1ce4e5b9
 				for i := 0; i < opsPer; i++ {
 					y = y*6364136223846793005 + 1442695040888963407
-					switch (y >> 33) % 16 {
+					switch (y >> 33) % 17 {
 					case 0, 1, 2:
 						ref, err := sys.ActorOf(&worker{stats: st})
 						if err != nil {
@@ -219,6 +226,24 @@ func TestC10Stress(t *testing.T) {
 					case 15:
 						if ref := pick(y >> 20); ref != nil {
 							sys.Tell(ref, &spawnNamed{name: fmt.Sprintf("kid-%d", (y>>45)%3)})
+						}
+					case 16:
+						// look up what the receiver of a pending Ask sees as its sender (a requester that is a future, not
+						// an actor): any answer, never a crash
+						if ref := pick(y >> 20); ref != nil {
+							f := sys.Ask(ref, &hold{}, 20*time.Millisecond)
+							for k := 0; k < 20; k++ {
+								if s, ok := lastHeld.Load().(string); ok && s != "" {
+									_, _ = sys.FindActor(s)
+									lookups.Add(1)
+								}
+								if k%5 == 4 {
+									time.Sleep(time.Millisecond)
+								}
+							}
+							if _, err := f.Result(); err == nil {
+								fail("C10/foreign-reply", "an Ask that nobody answers completed without an error")
+							}
 						}
 					}
 				}
@@ -316,6 +341,7 @@ func TestC10Stress(t *testing.T) {
 		})
 		vstat.Add("api_calls", int64(nGo*opsPer))
 		vstat.Add("name_collisions", collisions.Load())
+		vstat.Add("lookups_of_pending_ask_senders", lookups.Load())
 		if b := bad.Load(); b != nil {
 			sv := b.([2]string)
 			if !vstat.Fail(sv[0], sv[1], nil) {
